@@ -395,6 +395,30 @@ def check_remove(chk, prog, f):
                     return state | {("cleared", b["d"])}
             if l.get("k") == "ref":
                 return frozenset(x for x in state if x[1] != l["d"])
+        if k == "call" and own.release_kind(n) is None:
+            # a helper of the same file handed the address of the node's data pointer that stores NULL through it
+            # (payload = steal(&node->data))
+            g_ = f.unit.functions.get(X.callee_name(n) or "")
+            if g_ is not None and g_.body is not None and len(g_.params) == len(n["ch"]) - 1:
+                for j_, a_ in enumerate(n["ch"][1:]):
+                    sa_ = X.strip(a_)
+                    if sa_ is not None and sa_.get("k") == "un" and sa_.get("op") == "&":
+                        m_ = X.strip(sa_["ch"][0])
+                        if m_ is not None and m_.get("k") == "member" and m_.get("n") == "data" and (X.strip(m_["ch"][0]) or {}).get("k") == "ref":
+                            pd_ = g_.params[j_]["d"]
+                            clears = [y for y in walk(g_.body) if y.get("k") == "assign" and y.get("op") == "=" and X.is_null_const(y["ch"][1]) and
+                                      (X.strip(y["ch"][0]) or {}).get("k") == "un" and X.strip(y["ch"][0]).get("op") == "*" and
+                                      (X.strip(X.strip(y["ch"][0])["ch"][0]) or {}).get("d") == pd_]
+                            # unconditional in the helper (not under an if / loop)
+                            def top_(y):
+                                q = g_.parent.get(y["i"])
+                                while q is not None and q is not g_.body:
+                                    if q.get("k") in ("if", "for", "while", "do", "switch", "cond"):
+                                        return False
+                                    q = g_.parent.get(q["i"])
+                                return True
+                            if any(top_(y) for y in clears):
+                                return state | {("cleared", X.strip(m_["ch"][0])["d"])}
         return state
 
     def visit(state, n, blk):
